@@ -78,7 +78,12 @@ def main():
                                      {"A": parse_format("ds").unwrap(), "x": parse_format("d").unwrap(),
                                       "y": parse_format("s").unwrap()}))
 
+    B3 = Tensor.from_dok({(0, 1, 2): 1.0, (0, 3, 0): 2.0, (2, 0, 1): 3.0, (2, 4, 2): 4.0, (4, 2, 0): 5.0, (5, 4, 1): 6.0,
+                          (5, 4, 2): 7.0}, dimensions=(6, 5, 3), format="sss")
+
     def make(kind):
+        if kind == "sds":
+            return tensora.evaluate("T(i,j,k) = B(i,j,k)", "sds", B=B3), B3.to_dok()
         if kind == "reordered":
             return reordered(A=A, x=x), {(0,): 4.0, (1,): 12.0, (2,): 1.5}
         if kind == "empty":
@@ -90,11 +95,33 @@ def main():
         return tensora.evaluate("s() = x(i) * x(i)", "", x=x), {(): 21.0}
 
     def derive(t, kind):
+        if kind == "sds":
+            return tensora.evaluate("z(i,j,k) = 2 * t(i,j,k)", "sds", t=t)
         if kind in ("empty", "reordered"):
             return tensora.evaluate("z(i) = 2 * t(i)", "s", t=t)
         if kind == "scalar":
             return tensora.evaluate("z() = 2 * t()", "", t=t)
         return tensora.evaluate("z(i) = 2 * t(i)", "s" if kind == "sparse" else "d", t=t)
+
+    lib.malloc_usable_size.restype = ctypes.c_size_t
+    lib.malloc_usable_size.argtypes = [ctypes.c_void_p]
+
+    def too_short(t):
+        """Arrays of a live kernel output that are shorter than the structure they describe (pos/crd: 4 bytes per entry,
+        vals: 8): 'stays valid' means the whole described extent is still allocated."""
+        c = t.cffi_tensor
+        idx = t.taco_indices
+        bad = []
+        want = [("vals", int(tensor_cdefs.cast("uintptr_t", c.vals)), 8 * len(t.taco_vals))]
+        for l in range(c.order):
+            if c.mode_types[l] == 1:
+                lv = tensor_cdefs.cast("int32_t***", c.indices)[l]
+                want.append((f"pos{l}", int(tensor_cdefs.cast("uintptr_t", lv[0])), 4 * len(idx[l][0])))
+                want.append((f"crd{l}", int(tensor_cdefs.cast("uintptr_t", lv[1])), 4 * len(idx[l][1])))
+        for name, ad, need in want:
+            if ad and need and lib.malloc_usable_size(ctypes.c_void_p(ad)) < need:
+                bad.append(f"{name}: {lib.malloc_usable_size(ctypes.c_void_p(ad))} bytes allocated, {need} described")
+        return bad
 
     def addresses(t):
         c = t.cffi_tensor
@@ -106,7 +133,7 @@ def main():
         return [a for a in out if a]
 
     # warm up the kernels (compilation allocates; keep it out of the histories)
-    for kd in ("sparse", "dense", "scalar", "empty", "reordered"):
+    for kd in ("sparse", "dense", "scalar", "empty", "reordered", "sds"):
         t, _ = make(kd)
         derive(t, kd)
         del t
@@ -176,6 +203,9 @@ def main():
                             anomalies.append("output array not allocated inside the kernel call")
                     for ad in addrs:
                         watched[ad] = tid
+                    short = too_short(t)
+                    if short:
+                        anomalies.append(f"array of the live output tensor {tid} is shorter than the structure it describes: {short}")
                     expect[tid] = t.to_dok()
                     ns[n] = t
                 elif act == "alias":
